@@ -1,0 +1,36 @@
+//go:build verif
+
+package conversion
+
+// Contracts for the verification framework in /verif (comment-only file, build tag `verif`).
+
+// same(a, b): a and b denote the same version (the group is optional)
+//@ pred same(a string, b string) := string_helper.trim(a) == string_helper.trim(b)
+
+// C15: VersionsMatched only accepts spellings of the same version, and accepts equal strings.
+//@ func VersionsMatched
+//@   prop C15
+//@   opt theory=strings
+//@   modifies nothing
+//@   ensures [sound]      result ==> same(v0, v1)
+//@   ensures [reflexive]  v0 == v1 ==> result
+//@   ensures [short-full] !string_helper.HasGroup(v0) && string_helper.HasGroup(v1) ==> result == (v0 == string_helper.trim(v1))
+//@   ensures [full-short] string_helper.HasGroup(v0) && !string_helper.HasGroup(v1) ==> result == (string_helper.trim(v0) == v1)
+
+// a rule is declared iff it is in the from->to index
+//@ pred Declared(c Chain, r Rule) := has(c.BaseFromToIndex, r.FromVersion) && has(c.BaseFromToIndex[r.FromVersion], r.ToVersion)
+//@ pred NextOK(c Chain, rules []Rule, fromVer string) := forall(j, 0, len(rules), Declared(c, rules[j]) && same(rules[j].FromVersion, fromVer))
+
+// C15: every step offered after version fromVer is a declared rule that starts at fromVer
+// (with or without group) - "every step starts where the previous one ended".
+//@ func (Chain).NextRules
+//@   prop C15
+//@   opt theory=strings
+//@   modifies nothing
+//@   ensures [declared-and-adjacent] NextOK(c, result, fromVer)
+//@   loop 1
+//@     invariant fresh(rules) && NextOK(c, rules, fromVer)
+//@   loop 2
+//@     invariant fresh(rules) && NextOK(c, rules, fromVer) && k == fromVer && has(c.BaseFromToIndex, k)
+//@   loop 3
+//@     invariant fresh(rules) && NextOK(c, rules, fromVer) && same(k, fromVer) && has(c.BaseFromToIndex, k)
